@@ -188,7 +188,14 @@ impl G<'_> {
         let n = self.r.range(1, 2);
         for _ in 0..n {
             match self.r.below(if comments { 6 } else { 4 }) {
-                0 | 1 => self.put(" "),
+                0 | 1 => {
+                    // any Unicode white space is insignificant where a blank is
+                    if self.cfg.unicode && self.r.chance(1, 6) {
+                        { let t__ = self.r.pick(&["\u{a0}", "\u{3000}", "\u{2003}", "\t", "\r\n"]); self.put(t__) }
+                    } else {
+                        self.put(" ")
+                    }
+                }
                 2 => self.put("\n"),
                 3 => self.put("  "),
                 4 => self.put("/* c */"),
@@ -1308,6 +1315,29 @@ impl G<'_> {
         self.semi();
     }
 
+    /// an open-code fragment without its ';' at the end of a %macro or %do body (function-style
+    /// macros return a value this way); the statement it belongs to is completed by the caller
+    fn value_tail(&mut self) {
+        self.p.kinds.insert("value-tail");
+        match self.r.below(6) {
+            0 | 1 => self.mref(),
+            2 => {
+                let w = self.word();
+                self.put(w);
+            }
+            3 => {
+                let (t, _) = self.int_text();
+                self.put(&t);
+            }
+            4 if self.room() => self.fncall(),
+            _ => {
+                self.mref();
+                self.put(" + 1");
+            }
+        }
+        { let t__ = self.r.pick(&[" ", "\n", "\n  "]); self.put(t__) };
+    }
+
     fn body_stmts(&mut self, n: usize) {
         for _ in 0..n {
             { let t__ = self.r.pick(&[" ", "\n", "\n  "]); self.put(t__) };
@@ -1400,6 +1430,9 @@ impl G<'_> {
         }
         let n = if self.room() { self.r.below(3) } else { 0 };
         self.body_stmts(n);
+        if self.r.chance(1, 5) {
+            self.value_tail();
+        }
         self.end_stmt();
         self.leave();
     }
@@ -1485,6 +1518,9 @@ impl G<'_> {
         self.semi();
         let n = if self.room() { self.r.below(4) } else { 0 };
         self.body_stmts(n);
+        if self.r.chance(1, 3) {
+            self.value_tail();
+        }
         self.kw("%mend");
         if self.r.chance(1, 2) {
             self.blank();
